@@ -419,8 +419,9 @@ struct Digit {
                         return QNumberType::Real;
                     }
 
-                    if (number.Natural <= 0x7FFFFFFFFFFFFFFFULL) {
-                        number.Integer = -number.Integer;
+                    if (number.Natural <= 0x8000000000000000ULL) {
+                        // Two's complement negation; also covers -9223372036854775808.
+                        number.Natural = (~number.Natural + Number_T{1});
                         return QNumberType::Integer;
                     }
                 }
